@@ -86,6 +86,7 @@ def run(ctx):
     ws_rule(ctx, syn)
     limit_rule(ctx, syn)
     argtype_rule(ctx, syn)
+    align_rule(ctx, syn)
 
     # ---------------- keyword tables
     r_kw = ctx.rule("C09.KW", "every keyword a printer can emit is accepted by the parser")
@@ -411,3 +412,37 @@ def argtype_rule(ctx, syn):
                         ctx.report(r, "unevaluated", "parse_dataoperator could not be evaluated (%s) on (%r, %r, %r): the agreement with get_arg_type is not established" % (u, op, text, vt), pdo.file, pdo.line)
             r.hit("text:%s/%s" % (text, quoted), sample={"text": text, "quoted": quoted, "class": repr(vt)} if text in ("True", "1.2.3", "T10", "a|b") else None)
     ctx.floor(r, n, 400, "classifier/consumer evaluations")
+
+
+def align_rule(ctx, syn):
+    """fields that are consumed zipped together (`self.a.iter().zip(self.b.iter())`) run parallel: every
+    function that grows one must grow the other, otherwise the zip silently drops the tail (the printer
+    then omits constraints)"""
+    from synq import strip
+    r = ctx.rule("C09.ALIGN", "vectors that are zipped by the printer grow together in every function that grows one of them")
+    pairs = set()
+    for f in syn.fns:
+        if f.file != "src/api/query.rs" or f.body is None:
+            continue
+        for c in find(f.body, "mcall"):
+            if c["method"] == "zip" and c["args"]:
+                a = re.fullmatch(r"self\.(\w+)\.iter\(\)", unparse(strip(c["recv"])))
+                b = re.fullmatch(r"self\.(\w+)\.iter\(\)", unparse(strip(c["args"][0])))
+                if a and b:
+                    pairs.add((f.self_ty, tuple(sorted((a.group(1), b.group(1))))))
+    for ty, (a, b) in sorted(pairs):
+        for f in syn.fns:
+            if f.file != "src/api/query.rs" or f.body is None or f.self_ty != ty:
+                continue
+            grow = {a: 0, b: 0}
+            for c in find(f.body, "mcall"):
+                if c["method"] in ("push", "extend", "insert", "append"):
+                    m = re.fullmatch(r"self\.(\w+)", unparse(strip(c["recv"])))
+                    if m and m.group(1) in grow:
+                        grow[m.group(1)] += 1
+            if grow[a] or grow[b]:
+                ctx.functions_analysed.add(f.qual)
+                r.hit("%s|%s/%s" % (f.qual, a, b), sample={"function": f.qual, "grows": grow})
+                if grow[a] != grow[b]:
+                    ctx.report(r, "%s|%s/%s" % (f.qual, a, b), "%s grows `%s` %d time(s) but `%s` %d time(s); the two are consumed zipped (to_string), so items beyond the shorter one are silently dropped" % (f.qual, a, grow[a], b, grow[b]), f.file, f.line)
+    ctx.floor(r, len(pairs), 1, "zipped field pairs")
